@@ -71,6 +71,8 @@ def run(tier):
     blocks = []
     for _ in range(ncfg):
         cfg = g.cfg(constraints=True, groups=g.r.randint(2, 3))
+        while arggen.growbits_cross_prefix(cfg):
+            cfg = g.cfg(constraints=True, groups=g.r.randint(2, 3))
         acts = []
         for _ in range(nlines):
             line = gen_valid(g, cfg)
